@@ -793,6 +793,18 @@ class Frame(object):
             st.events.append(('store', path, render(v), node.lineno, rhs_names))
         elif isinstance(target, ast.Subscript):
             path = self.text(target, st)
+            buf = st.env.get(target.value.id) if isinstance(target.value, ast.Name) else None
+            if isinstance(buf, Bytes) and isinstance(target.slice, ast.Slice) and target.slice.step is None and not aug:
+                # slice assignment on a local byte buffer: buf[:0] = v inserts in front, buf[len(buf):] = v appends; any other
+                # splice leaves a value the term model cannot express (marked, so that template rules answer exit 2)
+                lo = self.text(target.slice.lower, st) if target.slice.lower is not None else ''
+                hi = self.text(target.slice.upper, st) if target.slice.upper is not None else ''
+                if lo in ('', '0') and hi == '0':
+                    buf.items[:0] = as_items(v)
+                elif hi == '' and lo == 'len(%s)' % render(buf):
+                    buf.items.extend(as_items(v))
+                else:
+                    buf.items[:] = [('SYM', 'slice-assigned(%s)' % render(Bytes(buf.items)))]
             st.env[path] = v
             st.stores.append((path, render(v), node.lineno, v))
             st.events.append(('store', path, render(v), node.lineno))
